@@ -210,6 +210,44 @@ impl PT for Ipv6Inet {
     }
 }
 
+/// A prefix type with a string serialisation ("<hex address>/<len>/<width>"), used to exercise the
+/// crate's generic Serialize / Deserialize impls through serde_json (which needs string keys).
+#[derive(Clone, Debug, PartialEq, Eq, Hash)]
+pub struct StrPfx(pub u128, pub u8, pub u8);
+impl StrPfx {
+    pub fn of<P: PT>(p: &P) -> Self {
+        let (a, l) = p.parts();
+        StrPfx(a << (128 - P::TW), l, P::TW as u8)
+    }
+}
+impl Prefix for StrPfx {
+    type R = u128;
+    fn repr(&self) -> u128 {
+        self.0
+    }
+    fn prefix_len(&self) -> u8 {
+        self.1
+    }
+    fn from_repr_len(repr: u128, len: u8) -> Self {
+        StrPfx(repr, len, 128)
+    }
+}
+impl serde::Serialize for StrPfx {
+    fn serialize<S: serde::Serializer>(&self, s: S) -> Result<S::Ok, S::Error> {
+        s.serialize_str(&format!("{:x}/{}/{}", self.0, self.1, self.2))
+    }
+}
+impl<'de> serde::Deserialize<'de> for StrPfx {
+    fn deserialize<D: serde::Deserializer<'de>>(d: D) -> Result<Self, D::Error> {
+        let s = String::deserialize(d)?;
+        let mut it = s.split('/');
+        let a = u128::from_str_radix(it.next().unwrap_or("0"), 16).map_err(serde::de::Error::custom)?;
+        let l: u8 = it.next().unwrap_or("0").parse().map_err(serde::de::Error::custom)?;
+        let w: u8 = it.next().unwrap_or("128").parse().map_err(serde::de::Error::custom)?;
+        Ok(StrPfx(a, l, w))
+    }
+}
+
 pub const ALL_TYPES: [&str; 14] = [
     "u8",
     "u16",
